@@ -424,7 +424,8 @@ class _h_dtype:
     bound_note = BOUND
 
     def configs():
-        return [{"dtype": "float64", "weights": None}, {"dtype": "int32", "weights": None}, {"dtype": "int64", "weights": "float64"}]
+        return [{"dtype": "float64", "weights": None}, {"dtype": "int32", "weights": None}, {"dtype": "int64", "weights": "float64"},
+                {"dtype": "uint32", "weights": "float64"}]
 
     def inputs(b):
         c = b.cfg
@@ -441,5 +442,43 @@ class _h_dtype:
 
     @raises(ValueError, "integer_histogram_with_float_weights_refused")
     def _(o):
-        return hasattr(o, "weights") and np.dtype(o.dtype).kind == "i"
+        return hasattr(o, "weights") and np.dtype(o.dtype).kind in "iu"
 
+
+
+# ---------------------------------------------------------------------------------------------- merge_bins(min_frequency) (C10)
+
+@contract(HB + ".merge_bins", props=["C10"], name=HB + ".merge_bins[min_frequency]")
+class _merge_minfreq:
+    bounded = True
+    bound_note = BOUND + "; merge_bins(min_frequency): 3 bins"
+
+    def configs():
+        return [{"m": 3, "dtype": "int64"}, {"m": 2, "dtype": "float64"}]
+
+    def inputs(b):
+        c = b.cfg
+        h = mk_hist(b, "h", 1, c.m, "static", c.dtype)
+        t = b.real("thr")
+        return dict(self=h, min_frequency=t, inplace=False)
+
+    @ensures("new_bins_are_unions_of_adjacent_old_bins_nothing_lost_outer_edges_kept")
+    def _(a, old, result):
+        ob = bins_of(attr(old.self, "_binnings")[0])
+        nb = bins_of(attr(result, "_binnings")[0])
+        f0, f1 = F(old.self), F(result)
+        cs = [len(nb) >= 1, len(nb) <= len(ob), nb[0][0] == ob[0][0], nb[-1][1] == ob[-1][1],
+              total(f1) == total(f0), total(E(result)) == total(E(old.self)), same(M(result), M(old.self)), same_hist(old.self, a.self)]
+        # every new bin starts where the previous one ended and both edges are old edges
+        old_edges = [ob[0][0]] + [r for _, r in ob]
+        for k, (l, r) in enumerate(nb):
+            cs.append(Or(*[l == e for e in old_edges]))
+            cs.append(Or(*[r == e for e in old_edges]))
+            if k:
+                cs.append(l == nb[k - 1][1])
+            # its content is the sum of the old bins it covers
+            cov = 0
+            for (ol, orr), x in zip(ob, f0):
+                cov = cov + If(And(l <= ol, orr <= r), x, 0)
+            cs.append(f1[k] == cov)
+        return And(*cs)
